@@ -128,21 +128,36 @@ def pick_for_solo(sigs, per_sig=2, cap=120, slow_cap=6):
 
 def confirm_solo(ctx, mode, vecs, bad, sig_of, isbad, tag):
     """Confirm-before-report for run8/run10: the disagreeing vectors (indexes `bad`) are run again alone - one at a
-    time, a fresh worker process each, no sibling workers, wall-clock limits ten times larger (yp -solo).  A case is
-    reported if it disagrees again, or, when it was not picked, if a picked case of the same signature did.
-    Returns (indexes to report, number of cases dropped as unconfirmed)."""
+    time, a fresh worker process each, no sibling workers, wall-clock limits ten times larger (yp -solo).  A picked
+    case is reported with what the solo run showed; a case that was not picked is reported if a picked case of the same
+    signature showed that same signature again.  sig_of(i, r) -> signature of vector i with result r.
+    Returns ([(index, result to report)], number of cases dropped as unconfirmed)."""
     if not bad:
         return [], 0
-    sigs = [sig_of(i) for i in bad]
+    sigs = [sig_of(i, None) for i in bad]
     picked = pick_for_solo(sigs)
     cp, out = ctx.path(f"confirm_{tag}.ndjson"), ctx.path(f"confirm_{tag}.out")
     write_ndjson(cp, [vecs[bad[k]] for k in picked])
     ctx.run_bin("yp", [mode, "-solo", "-out", out, cp], timeout=900)
-    r2 = [x["r"] for x in read_ndjson(out)]
-    again = {picked[j] for j, r in enumerate(r2) if isbad(r)}
-    good_sigs = {sigkey(sigs[k]) for k in again}
-    report = [bad[k] for k in range(len(bad)) if (k in again) or (k not in picked and sigkey(sigs[k]) in good_sigs)]
+    r2 = {picked[j]: x["r"] for j, x in enumerate(read_ndjson(out))}
+    again = {k for k, r in r2.items() if isbad(r)}
+    good_sigs = {sigkey(sigs[k]) for k in again if sigkey(sig_of(bad[k], r2[k])) == sigkey(sigs[k])}
+    report = [(bad[k], r2[k]) for k in sorted(again)]
+    report += [(bad[k], None) for k in range(len(bad)) if k not in picked and sigkey(sigs[k]) in good_sigs]
     return report, len(bad) - len(report)
+
+
+def second_pass(ctx, mode, vecs, results, tag):
+    """The pool stops feeding cases after 20 timed-out or crashed ones; the cases it did not get to (ret "skipped") are
+    run once more, so that a burst of timing noise cannot hide part of the space."""
+    idx = [i for i, r in enumerate(results) if r["ret"] == "skipped"]
+    if not idx:
+        return
+    sp, so = ctx.path(f"second_{tag}.ndjson"), ctx.path(f"second_{tag}.out")
+    write_ndjson(sp, [vecs[i] for i in idx])
+    ctx.run_bin("yp", [mode, "-out", so, "-workers", "12", sp], timeout=900)
+    for i, x in zip(idx, read_ndjson(so)):
+        results[i] = x["r"]
 
 
 def run_trace_tlc(ctx, module, cfg, trace, nchunks, split_key, timeout=1500):
@@ -332,37 +347,66 @@ def run_c07(ctx):
                           dict(kind="replay", text=v["text"], shown=show(v["text"]), result=r, lines=v["lines"]))
         return out
 
-    bad = collect(vecs, results, fails)
-    skipped = sum(1 for r in results if r["verdict"] == "skipped")
-    for i in sorted(bad):
-        sig, what, replay = bad[i]
-        if replay["result"]["verdict"] == "crash" and "worker silent" not in replay["result"].get("err", ""):
-            ctx.disagree(sig, what, replay)          # the process died inside the call
-        else:
-            suspects.append((vecs[i], sig, what, replay))
-    timing_unconfirmed = 0
-    if suspects:
-        # confirm before report: every suspect signature is run again alone (fresh worker process per case, nothing else
-        # running, watchdog 20 s, grace 5 s); only what shows again is a violation
+    def judge(suspects, tag):
+        """confirm before report: every suspect signature is run again alone (fresh worker process per case, nothing else
+        running, watchdog 20 s, grace 5 s); only what shows again is a violation.  Returns (reported, unconfirmed)."""
+        if not suspects:
+            return 0, 0
+        reported = unconfirmed = 0
         picked = pick_for_solo([x[1] for x in suspects])
-        cp = ctx.path("confirm7.ndjson")
+        cp = ctx.path(f"confirm7_{tag}.ndjson")
         write_ndjson(cp, [suspects[k][0] for k in picked])
-        v2, r2, f2, _ = c07_round(ctx, [cp], "confirm", hooks, solo=True)
+        v2, r2, f2, _ = c07_round(ctx, [cp], "confirm" + tag, hooks, solo=True)
         again = collect(v2, r2, f2)
-        good_sigs = {sigkey(suspects[picked[j]][1]) for j in again}
+        # a signature counts as confirmed when a picked case showed the same thing again (the untraced runs have their own site)
+        good_sigs = {sigkey(suspects[picked[j]][1]) for j in again if again[j][0].get("what") == suspects[picked[j]][1].get("what")}
         for k, (v, sig, what, replay) in enumerate(suspects):
             if k in picked:
                 j = picked.index(k)
                 if j not in again:
-                    timing_unconfirmed += 1
+                    unconfirmed += 1
                     continue
-                _, what2, replay2 = again[j]
+                sig2, what2, replay2 = again[j]
+                if sigkey(sig) not in good_sigs:
+                    sig, what = sig2, what2         # it disagrees alone, but differently: report what the solo run showed
                 replay = dict(replay, solo=replay2, confirmed="shown again alone: " + what2)
             elif sigkey(sig) not in good_sigs:
-                timing_unconfirmed += 1
+                unconfirmed += 1
                 continue
             replay["how"] = "bin/check C07 (ypt run7 [-solo] on this text; YangLexerTrace on its events)"
             ctx.disagree(sig, what, replay)
+            reported += 1
+        return reported, unconfirmed
+
+    def suspects_of(vecs, results, fails):
+        out = []
+        bad = collect(vecs, results, fails)
+        for i in sorted(bad):
+            sig, what, replay = bad[i]
+            if replay["result"]["verdict"] == "crash" and "worker silent" not in replay["result"].get("err", ""):
+                ctx.disagree(sig, what, replay)          # the process died inside the call
+            else:
+                out.append((vecs[i], sig, what, replay))
+        return out
+
+    suspects += suspects_of(vecs, results, fails)
+    reported, timing_unconfirmed = judge(suspects, "a")
+    skipped = sum(1 for r in results if r["verdict"] == "skipped")
+    if skipped and not reported and not ctx.violations:
+        # the harness stopped feeding cases after 20 suspect ones, and none of them was real: the cases it did not get to
+        # are run now, so that timing noise cannot hide part of the space
+        idx = [i for i, r in enumerate(results) if r["verdict"] == "skipped"]
+        sp = ctx.path("second7.ndjson")
+        write_ndjson(sp, [vecs[i] for i in idx])
+        v3, r3, f3, ev3 = c07_round(ctx, [sp], "second", hooks)
+        events += ev3
+        for j, i in enumerate(idx):
+            results[i] = r3[j]
+        rep2, unc2 = judge(suspects_of(v3, r3, f3), "b")
+        timing_unconfirmed += unc2
+        skipped = sum(1 for r in r3 if r["verdict"] == "skipped")
+        if skipped and not rep2:
+            raise Infra(f"timing too unstable: {skipped} texts were never executed because suspect cases that did not reproduce alone used up the budget twice")
     kinds = {}
     for v in vecs:
         k = (v["endsIn"], v["inBlock"], v["lastItem"])
@@ -460,12 +504,13 @@ def run_c08(ctx):
         results = [x["r"] for x in read_ndjson(res)]
         if len(vecs) != len(results):
             raise Infra(f"run8 returned {len(results)} results for {len(vecs)} vectors")
+        second_pass(ctx, "run8", vecs, results, "8")
         # binding self-test: a vector with a perturbed expectation must be reported by the replayer
         k = next((i for i, (v, r) in enumerate(zip(vecs, results)) if v["judged"] and r["ret"] == "ok" and r.get("equal")), None)
         if k is not None:
             sp, so = ctx.path("selftest8.ndjson"), ctx.path("selftest8.out")
             write_ndjson(sp, [dict(vecs[k], expect=vecs[k]["expect"] + [97])])
-            ctx.run_bin("yp", ["run8", "-out", so, "-workers", "1", sp])
+            ctx.run_bin("yp", ["run8", "-solo", "-out", so, sp])
             if read_ndjson(so)[0]["r"].get("equal") is not False:
                 raise Infra("self-test: yp run8 did not report a perturbed expectation")
         return vecs, results
@@ -484,12 +529,15 @@ def run_c08(ctx):
 
     (vecs, results), (events, fails, judged) = par(replay, long_strings)
     ctx.traces += len(vecs)
-    bad = [i for i, (v, r) in enumerate(zip(vecs, results)) if v["judged"] and not (r["ret"] == "ok" and r.get("equal"))]
+    bad = [i for i, (v, r) in enumerate(zip(vecs, results)) if v["judged"] and r["ret"] != "skipped" and not (r["ret"] == "ok" and r.get("equal"))]
     unjudged = sum(1 for v in vecs if not v["judged"])
-    report, unconfirmed8 = confirm_solo(ctx, "run8", vecs, bad, lambda i: c08_sig(vecs[i], results[i]),
+    report, unconfirmed8 = confirm_solo(ctx, "run8", vecs, bad, lambda i, r: c08_sig(vecs[i], r or results[i]),
                                         lambda r: not (r["ret"] == "ok" and r.get("equal")), "8")
-    for i in report:
-        v, r = vecs[i], results[i]
+    never = sum(1 for r in results if r["ret"] == "skipped")
+    if never and not report:
+        raise Infra(f"timing too unstable: {never} layouts were never executed because suspect cases that did not reproduce alone used up the budget twice")
+    for i, rs in report:
+        v, r = vecs[i], rs or results[i]
         ctx.disagree(c08_sig(v, r), f"argument of {show(v['text'], 120)!r}: want {show(v['expect'], 60)!r} got {show(r.get('got', []), 60)!r} {r.get('err', '')}",
                      dict(kind="replay", text=v["text"], shown=show(v["text"]), want=v["expect"], got=r.get("got"), ret=r["ret"], err=r.get("err"),
                           feat=v["feat"], how="bin/check C08 (yp run8 [-solo] on this vector)"))
@@ -531,7 +579,7 @@ def run_c10(ctx):
     ctx.build(["yp"])
     def replay():
         g = ctx.tlc("YangTreeGen", "YangTreeGen.cfg", workers=12, timeout=850, heap="10g",
-                    consts={"Size": '"quick"' if q else '"thorough"', "NFam": 24, "NTrees": 0 if q else 1, "NLay": 4 if q else 16},
+                    consts={"Size": '"quick"' if q else '"thorough"', "NFam": 24, "NTrees": 0 if q else 1, "NLay": 4 if q else 10},
                     extra=["-seed", str(ctx.seed)])
         files = vec_files(g["dir"])
         res = ctx.path("res10.ndjson")
@@ -540,6 +588,7 @@ def run_c10(ctx):
         results = [x["r"] for x in read_ndjson(res)]
         if len(vecs) != len(results):
             raise Infra(f"run10 returned {len(results)} results for {len(vecs)} vectors")
+        second_pass(ctx, "run10", vecs, results, "10")
         # binding self-test: a vector whose expected tree has a shifted line must be reported by the replayer
         k = next((i for i, r in enumerate(results) if r["ret"] == "ok" and "diff" not in r and vecs[i]["tree"]["subs"]), None)
         if k is not None:
@@ -547,7 +596,7 @@ def run_c10(ctx):
             v["tree"]["subs"][-1]["line"] += 1
             sp, so = ctx.path("selftest10.ndjson"), ctx.path("selftest10.out")
             write_ndjson(sp, [v])
-            ctx.run_bin("yp", ["run10", "-out", so, "-workers", "1", sp])
+            ctx.run_bin("yp", ["run10", "-solo", "-out", so, sp])
             if "diff" not in read_ndjson(so)[0]["r"]:
                 raise Infra("self-test: yp run10 did not report a perturbed expectation")
         return vecs, results
@@ -579,7 +628,7 @@ def run_c10(ctx):
 
     (vecs, results), (base, relaid, events, fails, judged) = par(replay, repo)
     ctx.traces += len(vecs)
-    isbad = lambda r: not (r["ret"] == "ok" and "diff" not in r)
+    isbad = lambda r: r["ret"] != "skipped" and not (r["ret"] == "ok" and "diff" not in r)
     bad = [i for i, (v, r) in enumerate(zip(vecs, results)) if isbad(r)]
     # all layouts of one tree agree on everything but positions (those that already differ from the source are reported above)
     groups = {}
@@ -594,9 +643,12 @@ def run_c10(ctx):
             for sh, ids in shapes.items():
                 if ids is not major:
                     layout_dis += ids
-    report, unconfirmed10 = confirm_solo(ctx, "run10", vecs, bad, lambda i: c10_sig(vecs[i], results[i]), isbad, "10")
-    for i in report:
-        v, r = vecs[i], results[i]
+    report, unconfirmed10 = confirm_solo(ctx, "run10", vecs, bad, lambda i, r: c10_sig(vecs[i], r or results[i]), isbad, "10")
+    never = sum(1 for r in results if r["ret"] == "skipped")
+    if never and not report:
+        raise Infra(f"timing too unstable: {never} layouts were never executed because suspect cases that did not reproduce alone used up the budget twice")
+    for i, rs in report:
+        v, r = vecs[i], rs or results[i]
         ctx.disagree(c10_sig(v, r), f"tree of {show(v['text'], 120)!r}: {r.get('diff') or r.get('err')}",
                      dict(kind="replay", text=v["text"], shown=show(v["text"], 2000), diff=r.get("diff"), ret=r["ret"], err=r.get("err"),
                           feat=v["feat"], how="bin/check C10 (yp run10 [-solo] on this vector)"))
